@@ -1,6 +1,6 @@
 """C26: comparison operators and shape facts of vgi_rpc/http/server/_sticky.py (sticky-session locking discipline).
 
-Emits `Gen/Sticky.lean`.  The model (`Model/C26.lean`) evaluates the *extracted* expiry comparisons; `C26_shape`
+Emits `Gen/C26.lean`.  The model (`Model/C26.lean`) evaluates the *extracted* expiry comparisons; `C26_shape`
 demands the structural facts the model transliterates: every path that ends a session pops the entry under the
 registry lock and then runs `state.close()` through `_close_entry` (under the ENTRY lock, once, never under the
 registry lock), the middleware re-validates `is_live` after acquiring the entry lock, `_close_session` keeps the
@@ -320,7 +320,7 @@ def emit() -> dict[str, str]:
     parts = [f"""/-
 Extracted from {SRC} (sticky-session locking discipline).
 -/
-namespace VgiVerif.Gen.Sticky
+namespace VgiVerif.Gen.C26
 
 /-- a Python comparison operator as it appears in the source -/
 inductive Cmp where
@@ -342,6 +342,6 @@ def reaperTickMillis : Nat := {a["reaperTickMillis"]}
 /-- normalised-AST fingerprint of the modelled classes / functions (drift indicator only) -/
 def fingerprint : String := "{a["fingerprint"]}"
 
-end VgiVerif.Gen.Sticky
+end VgiVerif.Gen.C26
 """)
-    return {"Sticky.lean": "".join(parts)}
+    return {"C26.lean": "".join(parts)}
